@@ -65,12 +65,12 @@ package exif2
 //@   requires irOK(ir) && n >= 0
 //@   modifies ir.po, stream(ir.reader), ir.buffer.buf
 //@   ensures [C01 C08] err == nil ==> len(buf) == n
-//@   ensures err != nil ==> len(buf) == 0 || len(buf) < n
 
 //@ func (*ifdReader).discard
 //@   props C01 C02 C08
 //@   requires irOK(ir)
 //@   modifies ir.po, stream(ir.reader), ir.buffer.buf
+//@   loop 0 decreases ite(err == nil, n, 0)
 
 //@ func (*ifdReader).readTagValue
 //@   props C01 C02
